@@ -13,6 +13,7 @@ package matchrule
 // match rule written without `values` would stop the pipeline at the first event).
 
 //@ func (*Rule).Prepare
+//@   modifies r.minValueSize, r.maxValueSize, r.prepared, r.Values[:]
 //@   ensures r.prepared && 0 <= r.minValueSize && r.minValueSize <= r.maxValueSize
 //@   ensures len(r.Values) == 0 ==> r.minValueSize == 0 && r.maxValueSize == 0
 //@   loop 1 invariant 0 <= minValueSize && minValueSize <= maxValueSize && len(r.Values) > 0
@@ -27,6 +28,7 @@ package matchrule
 // the compared window is the value-long head (prefix) or tail (suffix) of the data.
 
 //@ func (*Rule).match
+//@   pure
 //@   requires r.maxValueSize >= 0
 //@   requires r.Mode == ModeContains || r.Mode == ModePrefix || r.Mode == ModeSuffix
 //@   ghost nlower int = 0
@@ -57,6 +59,7 @@ package matchrule
 // every value, short ones included (no result is produced before the inversion).
 
 //@ func (*Rule).Match
+//@   pure
 //@   requires r.prepared
 //@   requires r.maxValueSize >= 0
 //@   requires r.Mode == ModeContains || r.Mode == ModePrefix || r.Mode == ModeSuffix
@@ -67,3 +70,51 @@ package matchrule
 //@     pure
 //@     set gm := m
 //@     set ncmp := ncmp + 1
+
+// RuleSet.Match (C17: "match rules"; cfg/matchrule/README: cond `and` = every rule
+// matches, cond `or` = some rule matches, an empty rule list matches nothing).
+// Stated over the outcomes of the individual rules, in the order of the list:
+// nchk rules were asked, each exactly once, rule k being the k-th one asked, all with
+// the data handed in; allm / anym are the conjunction / disjunction of their answers.
+// A positive `and` answer and a negative `or` answer are only given after every rule
+// was asked; the early answers (`and`: first rule that fails, `or`: first rule that
+// matches) are the conjunction / disjunction of the whole list whatever the rest says.
+
+//@ func (*RuleSet).Match
+//@   ghost nchk int = 0
+//@   ghost allm bool = true
+//@   ghost anym bool = false
+//@   requires forall k :: 0 <= k && k < len(rs.Rules) ==> rs.Rules[k].prepared && rs.Rules[k].maxValueSize >= 0 && (rs.Rules[k].Mode == ModeContains || rs.Rules[k].Mode == ModePrefix || rs.Rules[k].Mode == ModeSuffix)
+//@   pure
+//@   ensures len(rs.Rules) == 0 ==> !result
+//@   ensures len(rs.Rules) > 0 && rs.Cond == CondAnd ==> result == allm
+//@   ensures len(rs.Rules) > 0 && rs.Cond == CondOr ==> result == anym
+//@   ensures rs.Cond != CondAnd && rs.Cond != CondOr ==> !result
+//@   ensures result && rs.Cond == CondAnd ==> nchk == len(rs.Rules)
+//@   ensures !result && rs.Cond == CondOr ==> nchk == len(rs.Rules)
+//@   loop 1 invariant nchk == rangeindex + 1 && rangeindex < len(rs.Rules)
+//@   loop 1 invariant rs.Cond == CondAnd ==> allm
+//@   loop 1 invariant rs.Cond == CondOr ==> !anym
+//@   callee Match(d) (m)
+//@     requires ref(recv) == ref(rs.Rules) && off(recv) == off(rs.Rules) + nchk && nchk < len(rs.Rules)
+//@     requires d == data
+//@     set allm := allm && m
+//@     set anym := anym || m
+//@     set nchk := nchk + 1
+
+// RuleSet.Prepare: every rule of the set is prepared (Rule.Match panics on a rule that
+// is not), each one exactly once and in place; modes, inversion flags and the rule
+// list itself are left as configured.
+
+//@ func (*RuleSet).Prepare
+//@   ghost nprep int = 0
+//@   ensures nprep == len(rs.Rules)
+//@   ensures rs.Rules == old(rs.Rules) && rs.Cond == old(rs.Cond)
+//@   ensures forall k :: 0 <= k && k < len(rs.Rules) ==> rs.Rules[k].prepared && 0 <= rs.Rules[k].minValueSize && rs.Rules[k].minValueSize <= rs.Rules[k].maxValueSize
+//@   ensures forall k :: 0 <= k && k < len(rs.Rules) ==> rs.Rules[k].Mode == old(rs.Rules[k].Mode) && rs.Rules[k].Invert == old(rs.Rules[k].Invert) && rs.Rules[k].CaseInsensitive == old(rs.Rules[k].CaseInsensitive) && len(rs.Rules[k].Values) == old(len(rs.Rules[k].Values))
+//@   loop 1 invariant nprep == rangeindex + 1 && rangeindex < len(rs.Rules) && rs.Rules == old(rs.Rules) && rs.Cond == old(rs.Cond)
+//@   loop 1 invariant forall k :: 0 <= k && k < nprep ==> rs.Rules[k].prepared && 0 <= rs.Rules[k].minValueSize && rs.Rules[k].minValueSize <= rs.Rules[k].maxValueSize
+//@   loop 1 invariant forall k :: 0 <= k && k < len(rs.Rules) ==> rs.Rules[k].Mode == old(rs.Rules[k].Mode) && rs.Rules[k].Invert == old(rs.Rules[k].Invert) && rs.Rules[k].CaseInsensitive == old(rs.Rules[k].CaseInsensitive) && len(rs.Rules[k].Values) == old(len(rs.Rules[k].Values))
+//@   callee Prepare()
+//@     requires ref(recv) == ref(rs.Rules) && off(recv) == off(rs.Rules) + nprep && nprep < len(rs.Rules)
+//@     set nprep := nprep + 1
